@@ -261,7 +261,7 @@ def run(ctx):
     from props import c19 as _c19
     ctx.run_rule('C18.2b', 'T2', 'every started generator is sent the request followed by its own arguments dictionary', _c19.r_arguments_always_sent, prog)
     ctx.run_rule('C18.1c', 'T10', 'all three standard streams of a generator are pipes of the compiler', r_generator_streams_piped, prog)
-    ctx.run_rule('C18.5', 'T7', 'rendering a decode error never panics: panic-site ledger over slice-codec (an undecodable reply is reported through Display of the codec\'s error)', c11.r_codec_panic_ledger, prog)
+    ctx.run_rule('C18.5', 'T7', 'rendering a decode error never panics: panic-site ledger over slice-codec (an undecodable reply is reported through Display of the codec\'s error)', c11.r_codec_panic_ledger, prog, getattr(ctx, 'config', 'default'))
     ctx.run_rule('C18.3b', 'T10', 'a collection decoder reads exactly the announced number of elements (a truncated sequence fails, it is not shortened)', _codec.r_element_count_is_announced, prog)
     ctx.run_rule('C18.1b', 'T3', 'every generator result is folded on every loop path; the wait loop has no early exit', c07.r_generator_results_folded, prog)
     ctx.run_rule('C18.1c', 'T7', 'no panic-capable site in the generator path', r_no_unwrap_in_generator_path, prog)
